@@ -7,6 +7,11 @@ Streams (model = lean/PV/Model/Imperative.lean through the driver ops `imp-*`):
   disambiguate  disambiguate_identifiers and disambiguate_and_fuse with filters
   dot           get_dot_dependency_graph: edges parsed from the returned text
   dot-text      get_dot_dependency_graph with caller-supplied stringifier and hooks: every line
+  dot-families / dot-text-families
+                the two dot streams on directed graph families: chains of 3..33 edges with shortcuts
+                of every span, layered DAGs, diamonds on chains, ladders, each listed in dependency
+                order, consumers first, interleaved and shuffled, also after (repeated) fusion;
+                thorough tier: every DAG on <= 5 statements in every listing order
 
 T-gen (extract/imperative.py): the bodies of the five functions and of the statement-class methods
 are re-read from the source on every run (lean/PV/Generated/Imperative.lean) and the model is
@@ -868,6 +873,40 @@ def is_acyclic(rel):
     return all(dfs(n) for n in list(rel) if n not in color)
 
 
+def dot_oracle(ds, run, payload, where=""):
+    """the property's statement for the export of the payload stream `ds`: every statement drawn
+    once, in stream order, and the drawn edges exactly the transitive reduction of the dependency
+    relation (reference: `transitive_reduction`, reachability by DFS over the payload's own
+    `deps` fields — no code of the library involved).  `run()` -> (nodes, edges) parsed from the
+    text the real function returned."""
+    rel = {}
+    for d in ds:
+        for dep in d["deps"]:
+            rel.setdefault(d["id"], set()).add(dep)
+    if not is_acyclic(rel) or not all(NAME_RE.match(d["id"]) for d in ds):
+        return None
+    nodes, edges = run()
+    if nodes != [d["id"] for d in ds]:
+        return Failure("dot-nodes", f"nodes drawn {nodes}", payload)
+    want = transitive_reduction(rel)
+    if len(set(edges)) != len(edges) or set(edges) != want:
+        extra = ""
+        if where:
+            extra = (f"; {where}, listed {[d['id'] for d in ds]}: redundant edges drawn "
+                     f"{sorted(set(edges) - want)}, covering edges missing {sorted(want - set(edges))}")
+        return Failure("dot-not-transitive-reduction",
+                       f"drawn {sorted(edges)}, transitive reduction {sorted(want)}{extra}", payload)
+    return None
+
+
+def dot_shrinks(ds):
+    for j in range(len(ds)):
+        yield ds[:j] + ds[j + 1:]
+    for j, d in enumerate(ds):
+        for dep in d["deps"]:
+            yield ds[:j] + [{**d, "deps": [x for x in d["deps"] if x != dep]}] + ds[j + 1:]
+
+
 class DotStream(Stream):
     name = "dot"
 
@@ -911,27 +950,10 @@ class DotStream(Stream):
         return f"({strs_req(nodes)} {pairs_out(sorted(edges))})"
 
     def oracle(self, pl):
-        rel = {}
-        for d in pl:
-            for dep in d["deps"]:
-                rel.setdefault(d["id"], set()).add(dep)
-        if not is_acyclic(rel) or not all(NAME_RE.match(d["id"]) for d in pl):
-            return None
-        nodes, edges = self._run(pl)
-        if nodes != [d["id"] for d in pl]:
-            return Failure("dot-nodes", f"nodes drawn {nodes}", pl)
-        want = transitive_reduction(rel)
-        if len(set(edges)) != len(edges) or set(edges) != want:
-            return Failure("dot-not-transitive-reduction",
-                           f"drawn {sorted(edges)}, transitive reduction {sorted(want)}", pl)
-        return None
+        return dot_oracle(pl, lambda: self._run(pl), pl)
 
     def shrink(self, pl):
-        for j in range(len(pl)):
-            yield pl[:j] + pl[j + 1:]
-        for j, d in enumerate(pl):
-            for dep in d["deps"]:
-                yield pl[:j] + [{**d, "deps": [x for x in d["deps"] if x != dep]}] + pl[j + 1:]
+        return dot_shrinks(pl)
 
     def nontrivial_key(self, pl, model, impl):
         return self.request(pl) if any(d["deps"] for d in pl) else None
@@ -1005,6 +1027,315 @@ class DotTextStream(Stream):
 # }}}
 
 
+# {{{ streams: directed dependency-graph families for the dot export
+
+# A graph is (n, edges): nodes 0..n-1 numbered in a dependency order, edges a set of pairs (i, j)
+# with i > j: statement i depends on statement j.  The closure / reduction of the export has to be
+# right for EVERY listing order of the statements and for alternative paths of EVERY length, so
+# the families below put long alternative paths next to direct dependencies and list each graph
+# producers first, consumers first, interleaved and shuffled.
+
+def g_chain(length, shortcuts=()):
+    """the chain `length -> … -> 1 -> 0` (`length` edges) plus the given extra edges"""
+    return length + 1, {(i, i - 1) for i in range(1, length + 1)} | set(shortcuts)
+
+
+def chain_shortcuts(length):
+    """every possible shortcut (i, j), i - j >= 2, of the chain with `length` edges"""
+    return [(i, j) for i in range(length + 1) for j in range(i - 1)]
+
+
+def g_layered(rng, layers, maxw, skip):
+    """layers of 1..maxw statements; each statement depends on a non-empty random part of the
+    layer below and, with probability `skip` each, on statements of older layers"""
+    lay, edges, n = [], set(), 0
+    for _ in range(layers):
+        cur = list(range(n, n + rng.randint(1, maxw)))
+        n += len(cur)
+        if lay:
+            for v in cur:
+                for u in rng.sample(lay[-1], rng.randint(1, len(lay[-1]))):
+                    edges.add((v, u))
+                for older in lay[:-1]:
+                    for u in older:
+                        if rng.random() < skip:
+                            edges.add((v, u))
+        lay.append(cur)
+    return n, edges
+
+
+def g_diamonds(rng, count, width, link, variant):
+    """`count` diamonds (bottom, `width` parallel statements, top) strung on a chain with `link`
+    chain statements between two diamonds; variant: none | each (top -> bottom of every diamond)
+    | ends (last statement -> first) | random (extra edges between random pairs)"""
+    edges, n, bottom, spans = set(), 1, 0, []
+    for k in range(count):
+        for _ in range(link if k else 0):
+            edges.add((n, bottom))
+            bottom, n = n, n + 1
+        mids = list(range(n, n + width))
+        top = n + width
+        n = top + 1
+        for m in mids:
+            edges.add((m, bottom))
+            edges.add((top, m))
+        spans.append((top, bottom))
+        bottom = top
+    if variant == "each":
+        edges |= set(spans)
+    elif variant == "ends":
+        edges.add((n - 1, 0))
+    elif variant == "random":
+        for _ in range(rng.randint(1, 4)):
+            i = rng.randrange(1, n)
+            edges.add((i, rng.randrange(0, i)))
+    return n, edges
+
+
+def g_ladder(rng, length, cross):
+    """two parallel chains from a common first statement to a common last one, with random
+    cross dependencies from one chain into the other"""
+    left = list(range(1, length + 1))
+    right = list(range(length + 1, 2 * length + 1))
+    last = 2 * length + 1
+    edges = {(left[0], 0), (right[0], 0), (last, left[-1]), (last, right[-1])}
+    for c in (left, right):
+        for a, b in zip(c[1:], c):
+            edges.add((a, b))
+    for k in range(1, length):
+        if rng.random() < cross:
+            edges.add((right[k], left[rng.randrange(0, k)]))
+    if rng.random() < 0.5:
+        edges.add((last, 0))
+    return last + 1, edges
+
+
+def family_graphs(rng, tier):
+    """(family, n, edges) of the directed families"""
+    quick = tier == "quick"
+    # chains of 3..12 edges with ONE shortcut of every span (quick: one random position per span
+    # and always the end-to-end one; thorough: every position)
+    for length in range(3, 13):
+        for span in range(2, length + 1):
+            tops = list(range(span, length + 1))
+            if quick and span != length:
+                tops = [rng.choice(tops)]
+            for i in tops:
+                yield f"chain{length}-shortcut-span{span}", *g_chain(length, [(i, i - span)])
+    # chains with several shortcuts: a random part of them, all from the last statement, all
+    for length in range(3, 13):
+        sc = chain_shortcuts(length)
+        for prob in (0.1, 0.3, 0.6) * (1 if quick else 6):
+            yield f"chain{length}-shortcuts-random", *g_chain(
+                length, [e for e in sc if rng.random() < prob])
+        yield f"chain{length}-shortcuts-from-last", *g_chain(
+            length, [e for e in sc if e[0] == length])
+        yield f"chain{length}-shortcuts-to-first", *g_chain(length, [e for e in sc if e[1] == 0])
+        if length <= 9:
+            yield f"chain{length}-shortcuts-all", *g_chain(length, sc)
+    # chains longer than any fixed number of sweeps is likely to cover
+    for length in (16, 23, 33):
+        yield f"chain{length}-shortcut-span{length}", *g_chain(length, [(length, 0)])
+        i = rng.randint(8, length)
+        j = rng.randint(0, i - 7)
+        yield f"chain{length}-shortcut-span{i - j}", *g_chain(length, [(i, j)])
+    for _ in range(36 if quick else 600):
+        layers = rng.randint(3, 7)
+        yield f"layered{layers}", *g_layered(rng, layers, rng.randint(1, 3),
+                                            rng.choice([0.0, 0.15, 0.4]))
+    for count in range(1, 5):
+        for variant in ("none", "each", "ends", "random"):
+            for _ in range(1 if quick else 8):
+                yield f"diamonds{count}-{variant}", *g_diamonds(
+                    rng, count, rng.randint(2, 3), rng.randint(0, 2), variant)
+    for length in range(2, 7):
+        for _ in range(2 if quick else 20):
+            yield f"ladder{length}", *g_ladder(rng, length, rng.choice([0.3, 0.7]))
+
+
+NAMEPOOL = IDPOOL + [f"n{i}" for i in range(30)] + [f"k_{i}" for i in range(0, 60, 3)]
+
+
+def name_nodes(rng, n, scheme):
+    """ids for nodes 0..n-1: numbered along the dependency order, against it, or unrelated to it
+    (the iteration order of the sets of ids inside the export varies with the names)"""
+    if scheme == "s":
+        return [f"s{i}" for i in range(n)]
+    if scheme == "rev":
+        return [f"s{n - 1 - i}" for i in range(n)]
+    return rng.sample(NAMEPOOL, n)
+
+
+def listing_orders(rng, n, shuffles):
+    idx = list(range(n))
+    yield "dependency-order", idx
+    yield "consumers-first", idx[::-1]
+    yield "interleaved", idx[1::2] + idx[0::2]
+    for _ in range(shuffles):
+        sh = list(idx)
+        rng.shuffle(sh)
+        yield "shuffled", sh
+
+
+def graph_stream(n, edges, names, order, mixed):
+    """payload statements of the graph, listed in `order`"""
+    deps = {i: [] for i in range(n)}
+    for i, j in edges:
+        deps[i].append(names[j])
+    x = p.Variable("x")
+    out = []
+    for i in order:
+        k = i % 3 if mixed else 2
+        if k == 0:
+            out.append(S("asg", names[i], deps[i], p.Subscript(x, i), p.Sum((x, 1))))
+        elif k == 1:
+            out.append(S("casg", names[i], deps[i], x, i, p.Comparison(x, "<", 1)))
+        else:
+            out.append(S("nop", names[i], deps[i]))
+    return out
+
+
+def family_cases(rng, tier):
+    """(family, order name, payload stream): every graph of the families in every listing order,
+    then the same graphs after fusion and repeated fusion"""
+    quick = tier == "quick"
+    graphs = list(family_graphs(rng, tier))
+    for fam, n, edges in graphs:
+        names = name_nodes(rng, n, rng.choice(["s", "s", "rev", "pool", "pool"]))
+        mixed = rng.random() < 0.25
+        for oname, order in listing_orders(rng, n, 1 if quick else 3):
+            yield fam, oname, graph_stream(n, edges, names, order, mixed)
+    # exported after fuse / repeated fuse: the parts use the same ids on purpose (they are renamed)
+    from pymbolic.imperative.transform import fuse_statement_streams_with_unique_ids
+    small = [g for g in graphs if g[1] <= 13]
+    for _ in range(60 if quick else 1200):
+        acc, fams, onames, parts = None, [], [], []
+        for step in range(rng.choice([2, 2, 3, 4])):
+            if step >= 2 and len(acc) <= 20 and rng.random() < 0.25:
+                fam, oname = "itself", "same"              # the fused stream fused with itself
+                ds = [stmt_payload(s) for s in acc]
+            elif step >= 2 and rng.random() < 0.5:
+                fam, oname, ds = rng.choice(parts)         # an already fused part, fused again
+            else:
+                fam, n, edges = rng.choice(small)
+                oname, order = rng.choice(list(listing_orders(rng, n, 1)))
+                ds = graph_stream(n, edges, name_nodes(rng, n, rng.choice(["s", "s", "rev"])),
+                                  order, False)
+                parts.append((fam, oname, ds))
+            fams.append(fam)
+            onames.append(oname)
+            if acc is None:
+                acc = mk_stream(ds)
+                continue
+            try:
+                acc, _ = fuse_statement_streams_with_unique_ids(acc, mk_stream(ds))
+            except RecursionError:
+                raise
+            except Exception:
+                break                                      # the fuse stream reports this
+            yield ("fused(" + " + ".join(fams) + ")", " + ".join(onames),
+                   [stmt_payload(s) for s in acc])
+
+
+DAG_NAMES = ["a", "b", "c", "d", "e"]
+
+
+def dag_stream(n, mask, perm):
+    """the DAG number `mask` on n <= 5 statements (bit k set = k-th pair (i, j), i > j, is a
+    dependency of i on j), listed in the order `perm`"""
+    pairs = [(i, j) for i in range(n) for j in range(i)]
+    edges = [e for k, e in enumerate(pairs) if mask >> k & 1]
+    return graph_stream(n, edges, DAG_NAMES, perm, False)
+
+
+class DotFamilyStream(DotStream):
+    """the dot export on directed graph families (long chains with shortcuts of every span, layered
+    DAGs, diamonds on chains, ladders; in dependency order, consumers first, interleaved, shuffled;
+    also after fusion and repeated fusion): edges against the model and against the independent
+    transitive reduction.  Thorough tier: every DAG on <= 5 statements in every listing order."""
+    name = "dot-families"
+
+    def cases(self, rng, tier):
+        for fam, oname, ds in family_cases(rng, tier):
+            yield {"family": fam, "order": oname, "stream": ds}
+        if tier != "quick":
+            for n in range(0, 6):
+                for mask in range(1 << (n * (n - 1) // 2)):
+                    for perm in itertools.permutations(range(n)):
+                        yield {"family": f"all-dags{n}", "order": "every-order",
+                               "dag": [n, mask, list(perm)]}
+
+    @staticmethod
+    def _stream(pl):
+        return pl["stream"] if "stream" in pl else dag_stream(*pl["dag"])
+
+    def request(self, pl):
+        return f"(imp-dot {stream_req(self._stream(pl))})"
+
+    def _run(self, pl):
+        return DotStream._run(self, self._stream(pl))
+
+    def oracle(self, pl):
+        return dot_oracle(self._stream(pl), lambda: self._run(pl), pl,
+                          f"family {pl['family']}, order {pl['order']}")
+
+    def shrink(self, pl):
+        for ds in dot_shrinks(self._stream(pl)):
+            yield {"family": pl["family"], "order": pl["order"], "stream": ds}
+
+    def nontrivial_key(self, pl, model, impl):
+        return self.request(pl) if any(d["deps"] for d in self._stream(pl)) else None
+
+    def stats(self, pl, mo, io, acc):
+        DotStream.stats(self, self._stream(pl), mo, io, acc)
+        fam = re.sub(r"\d+", "", pl["family"].split("(")[0])
+        for k in ("family:" + fam, "order:" + pl["order"].split(" + ")[-1]):
+            acc[k] = acc.get(k, 0) + 1
+        acc["max_statements"] = max(acc.get("max_statements", 0), len(self._stream(pl)))
+
+
+class DotTextFamilyStream(DotTextStream):
+    """the whole text of the export (hooks, caller-supplied stringifier) on the same directed
+    families, against the model's `dotText`; the edge lines also against the independent
+    transitive reduction"""
+    name = "dot-text-families"
+
+    def cases(self, rng, tier):
+        for k, (fam, oname, ds) in enumerate(family_cases(rng, tier)):
+            yield {"u": ["none", "true", "false"][k % 3], "pre": rng.choice(self.PRE),
+                   "post": rng.choice(self.POST), "stream": ds, "family": fam, "order": oname}
+
+    def _run(self, pl):
+        from pymbolic.imperative.utils import get_dot_dependency_graph
+        u = {"none": None, "true": True, "false": False}[pl["u"]]
+        text = get_dot_dependency_graph(
+            mk_stream(pl["stream"]), use_stmt_ids=u, preamble_hook=lambda: list(pl["pre"]),
+            additional_lines_hook=lambda: list(pl["post"]),
+            statement_stringifier=lambda s: "<" + s.id + ">")
+        lines = text.split("\n")
+        # the lines between `rankdir` and the additional lines: statements, then edges
+        return parse_dot("\n".join(lines[1 + len(pl["pre"]) + 1:len(lines) - len(pl["post"]) - 1]))
+
+    def oracle(self, pl):
+        return dot_oracle(pl["stream"], lambda: self._run(pl), pl,
+                          f"family {pl['family']}, order {pl['order']}")
+
+    def shrink(self, pl):
+        for ds in dot_shrinks(pl["stream"]):
+            yield {**pl, "stream": ds}
+        if pl["pre"]:
+            yield {**pl, "pre": []}
+        if pl["post"]:
+            yield {**pl, "post": []}
+
+    def stats(self, pl, mo, io, acc):
+        DotTextStream.stats(self, pl, mo, io, acc)
+        k = "order:" + pl["order"].split(" + ")[-1]
+        acc[k] = acc.get(k, 0) + 1
+
+# }}}
+
+
 # {{{ T-gen
 
 def extract(ctx=None):
@@ -1047,7 +1378,8 @@ PROP = Prop(
     title="Statement-stream utilities keep programs well-formed",
     lean_targets=["PV.Properties.C20", "PV.Properties.C20Table"],
     theorems=[],
-    streams=[GenStream(), FuseStream(), RWStream(), DisambStream(), DotStream(), DotTextStream()],
+    streams=[GenStream(), FuseStream(), RWStream(), DisambStream(), DotStream(), DotTextStream(),
+             DotFamilyStream(), DotTextFamilyStream()],
     probes=[probe_known],
     extractors=[extract],
     trusted_base=["Lean 4.33 kernel; axioms propext, Classical.choice, Quot.sound only",
